@@ -753,11 +753,15 @@ class PandasModelBase(
                     assert len(opk.op) > 1
                     assert opk.op[0] == "_"
                     zero_op = opk.op[1:]
-                    if zero_op in {"row_number", "count"}:
+                    if (zero_op == "row_number") or (
+                        (zero_op == "count") and (len(op.order_by) > 0)
+                    ):
+                        # running count in the window order
                         subframe[k] = opframe.cumcount() + 1
                     elif zero_op in {"ngroup"}:
                         subframe[k] = opframe.ngroup()
-                    elif zero_op in {"size"}:
+                    elif zero_op in {"size", "count"}:
+                        # no ordering: count is the partition size (as in SQL), not a position in the incoming row order
                         transform_op = zero_op
                         try:
                             transform_op = self.transform_op_map[transform_op]
